@@ -86,7 +86,7 @@ func init() {
 		"lpop", "lpush", "rpop", "rpush", "lrange", "lindex", // list
 		"spop", "sunion", "smembers", // set
 		"zadd", "zrange", "zcard", "zrangebyscore", // zset
-		"cluster", "ping", // special
+		"cluster", "ping", "scan", // special, SCAN returns key names only
 	} {
 		wkSkipCheckCmdsInDecps[cmd] = struct{}{}
 	}
